@@ -609,7 +609,8 @@ def plan(tier, seed):
     names = sorted(object_types())
     nsh = 32
     return [dict(name="types-%d" % i, kind="types", types=names[i::nsh], n=200 if tier == "quick" else 2500) for i in range(nsh)] + \
-           [dict(name="sweep-%d" % i, kind="sweep", types=names[i::nsh], n=6 if tier == "quick" else 60) for i in range(nsh)]
+           [dict(name="sweep-%d" % i, kind="sweep", types=names[i::nsh], n=6 if tier == "quick" else 60) for i in range(nsh)] + \
+           [dict(name="tracing-%d" % i, kind="types", types=names[i::4], n=12 if tier == "quick" else 150, tracing=True) for i in range(4)]   # once more with debug tracing on
 
 
 def history_strategy(otype, focus=None):
